@@ -201,3 +201,33 @@ Theorem c03_world_spawn_on_a_reachable_world :
     op_spawn beh w = ROk id w' -> w_rcnt w' = 0 -> sm_get id (w_ents w') <> None \/ Dead (w_ents w') id.
 Proof. exact reachable_world_spawn_id_is_created. Qed.
 Print Assumptions c03_world_spawn_on_a_reachable_world.
+
+(* c03_promised_ids_are_exactly_the_ids_created (Props/C03.v) and c03_reserved_ids_are_created without their capacity
+   hypotheses: that the predictions succeeded already implies that the insertions succeed *)
+Theorem c03_predicted_keys_are_the_inserted_keys :
+  forall (V : Type) (f : key -> V) (n : nat) (m : smap V) (ks : list key) (i : N),
+    SmInv m -> predict n (next_key_iter m) m = Some (ks, i) ->
+    exists m', inserts n f m = Some (ks, m') /\ SmInv m' /\ next_key_iter m' = i.
+Proof. exact @predict_inserts. Qed.
+Print Assumptions c03_predicted_keys_are_the_inserted_keys.
+
+Theorem c03_promised_ids_are_exactly_the_ids_created_at_any_size :
+  forall (w : world) (ks : list key),
+    WInv w -> reserved_ids w ks ->
+    exists w', spawn_all w = ROk tt w' /\ WInv w' /\
+               (forall k, In k ks -> sm_get k (w_ents w') <> None /\ forall c, abs w' k c = None) /\
+               ext_by_spawn w w' /\ w_rcnt w' = 0 /\ reserved_ids w' nil.
+Proof. exact reserved_ids_are_created_nocap. Qed.
+Print Assumptions c03_promised_ids_are_exactly_the_ids_created_at_any_size.
+
+(* "differs from every id returned earlier ... identifies exactly one new component-less entity": an id promised in a quiet
+   world is the id of no existing entity and of the component-less entity the next materialisation creates - at any size *)
+Theorem c03_a_promised_id_is_fresh_and_becomes_a_component_less_entity :
+  forall (w : world), WInv w -> Quiet w ->
+    match reserve w with
+    | ROk id w1 => exists w', spawn_all w1 = ROk tt w' /\ WInv w' /\ sm_get id (w_ents w) = None /\
+                              sm_get id (w_ents w') <> None /\ (forall c, abs w' id c = None) /\ ext_by_spawn w1 w' /\ Quiet w'
+    | RFail _ w1 => w1 = w
+    end.
+Proof. exact quiet_reservation_is_kept_nocap. Qed.
+Print Assumptions c03_a_promised_id_is_fresh_and_becomes_a_component_less_entity.
